@@ -58,6 +58,23 @@ complement of the b-set in ascending order, whatever the order of `bset` -/
 def flippv (bset : List Nat) (n : Nat) : List Nat :=
   (List.range n).filter fun i => !bset.contains i
 
+/-- position of `x` in `l` (first occurrence) -/
+def posOf (x : Nat) : List Nat → Option Nat
+  | [] => none
+  | y :: t => if y = x then some 0 else (posOf x t).map (· + 1)
+
+/-- `bset[l]` (or `qset[k]`) as a model DOF -/
+def posFn (n : Nat) [NeZero n] (l : List Nat) (r : Nat) : Fin r → Fin n :=
+  fun k => Fin.ofNat n (l.getD k.1 0)
+
+/-- where model DOF `i` sits: in the b-set (`inl` position) or in the q-set (`inr` position) -/
+def locFn {n : Nat} (bset qset : List Nat) (r nq : Nat) [NeZero r] [NeZero nq] :
+    Fin n → Fin r ⊕ Fin nq :=
+  fun i =>
+    match posOf i.1 bset with
+    | some l => .inl (Fin.ofNat r l)
+    | none => .inr (Fin.ofNat nq ((posOf i.1 qset).getD 0))
+
 /-! ## the frequency-dependent scalars -/
 
 /-- what `cbtf` uses of one frequency `Ω`:
